@@ -9,6 +9,7 @@ Vocabulary (Proofs/EarlyStop.lean): `Chained`, `Scripted`, `BarChain`,
 `PatienceOK`, `firstMin`, `Linked`, `BrokeOnlyLast`.
 -/
 import Proofs.EarlyStop
+import Proofs.GenEarlyStop
 import PysersicModel.Gen.Consts
 
 namespace Pysersic.Props.C14
@@ -246,9 +247,52 @@ private def demo : Nat → Loss
 
 example : run demo ⟨3, 3, 1⟩ = some ⟨8, 10, [.fin 2, .fin 2], 10⟩ := by decide
 example : run demo ⟨0, 3, 1⟩ = none := by decide
+/-- the routine as translated from the source, run on the same history -/
+example : Gen.EarlyStopProg.run demo ⟨3, 3, 1⟩ = some ⟨8, 10, [.fin 2, .fin 2], 10⟩ := by decide
+example : Gen.EarlyStopProg.run demo ⟨0, 3, 1⟩ = none := by decide
 /-- regression witness of the repaired defect: history `[nan, 2, 1, 0, …]`, one round,
 now returns the lowest-loss state, not the first one -/
 example : (run (fun k => if k = 0 then .nan else .fin (3 - k)) ⟨1, 5, 5⟩).map (·.best) = some 6 := by
   decide
+
+/-! ### the same statements about the routine AS TRANSLATED FROM THE SOURCE on this run
+(`Gen.EarlyStopProg.run`, regenerated by tools/translate_prog.py; `Proofs.GenEarlyStop.gen_run_eq` identifies it with the model) -/
+
+section source
+open Pysersic.Gen.EarlyStopProg (Params)
+open Pysersic.Proofs.GenEarlyStop (cfgOf gen_run_eq gen_calls_eq)
+
+variable (P : Params)
+
+/-- call budget of the translated source -/
+theorem src_calls_bound (res : Result) (h : Gen.EarlyStopProg.run script P = some res) :
+    res.calls ≤ 1 + P.num_round * P.max_train := by
+  rw [gen_run_eq] at h
+  exact calls_bound script (cfgOf P) res h
+
+/-- the translated source returns the first strict running minimum of the last round (or the round's start state) -/
+theorem src_result_first_argmin (res : Result) (h : Gen.EarlyStopProg.run script P = some res) :
+    ∃ rc, (allRounds script (cfgOf P)).getLast? = some rc ∧
+      ((res.best = rc.start ∧ ∀ st ∈ rc.out.steps, st.loss.lt rc.bar0 = false) ∨
+       (∃ pre st post, rc.out.steps = pre ++ st :: post ∧ res.best = st.outState ∧
+          st.loss.lt rc.bar0 = true ∧
+          (∀ x ∈ pre, x.loss = Loss.nan ∨ st.loss.lt x.loss = true) ∧
+          (∀ x ∈ post, x.loss.lt st.loss = false))) := by
+  rw [gen_run_eq] at h
+  exact result_first_argmin script (cfgOf P) res h
+
+/-- the translated source raises (NameError) exactly for `num_round = 0` -/
+theorem src_run_isSome_iff : (Gen.EarlyStopProg.run script P).isSome = true ↔ 0 < P.num_round := by
+  rw [gen_run_eq]
+  exact run_isSome_iff script (cfgOf P)
+
+/-- every update call of the translated source is a step of the model's trace: the patience / restart / learning-rate
+theorems above, stated on `allRounds`, are statements about the calls the source makes -/
+theorem src_calls_are_model_steps :
+    Gen.EarlyStopProg.calls script P =
+      (0, 0) :: (allRounds script (cfgOf P)).flatMap (fun rc => rc.out.steps.map fun st => (st.round, st.inState)) :=
+  gen_calls_eq script P
+
+end source
 
 end Pysersic.Props.C14
